@@ -20,6 +20,19 @@ CHECKS = {
          NOTE_COMMON, 'CBMC code contracts: inactive/NULL contract variants'),
  'C12': ('proof', 'Legacy get/set/init wrappers are enforced against contracts that use the same oracle rows as the current API, every legacy alias macro included by name, with the current-API callee replaced by its contract.', '§5 C12',
          NOTE_COMMON, 'CBMC code contracts, modular'),
+
+ 'C06': ('proof', 'Hand-written contracts on Avtp_Can_SetPayload / Finalize / CreateAcfMessage / GetCanPayloadLength and Avtp_CanBrief_SetPayload / Finalize: payload verbatim (ghost index), pad bytes zero, header bytes equal the successive reference writes of eff/id/fdf/length/pad over the old header (so no other field changes), frame = padded message only, brief builder returns the padded length; every payload length the 9-bit field can express, all 2^32 identifiers; CreateAcfMessage is verified with SetPayload/SetField/Finalize replaced by their contracts (composition).', '§5 C06',
+         NOTE_COMMON, 'CBMC code contracts, modular, ghost byte indices instead of quantifiers'),
+ 'C09': ('proof', 'Contract on Avtp_Vss_Pad for all lengths 12..2044 with symbolic trailing slack: length = ceil(len/4), pad count, exactly the pad bytes zeroed (ghost index), header otherwise unchanged, frame excludes everything else; the 9-bit length accessors are covered by the generated getter / fits contracts.', '§5 C09',
+         NOTE_COMMON, 'CBMC code contracts'),
+ 'C13': ('proof', 'Contracts on the 3 swap primitives and 12 conversion helpers: memory image of the result (through a byte view) is the big-/little-endian sequence of the argument, to-host helpers invert them, swaps reverse bytes; value-form clauses selected by host byte order are mirror images; involution/round-trip lemmas over the contracts only. Loop-free, full 2^16/2^32/2^64 domains, both host byte orders.', '§5 C13',
+         NOTE_COMMON + 'Big-endian host = goto-cc --big-endian with __BYTE_ORDER__ overridden.', 'CBMC code contracts on inline functions, LE and BE configurations'),
+ 'C14': ('proof', 'All contracts are phrased over bytes in wire order; the same contracts are re-verified with the library compiled for a big-endian host (big-endian memory model + the big-endian branch of Byteorder.h): the two generic routines with their loop contracts, byte-order helpers, CAN builders, VSS pad, and the generated accessor contracts (quick: TSCF, CAN, VSS; thorough: all formats).', '§5 C14',
+         NOTE_COMMON + 'Big-endian host is modelled by CBMC (--big-endian), no big-endian hardware or compiler is involved.', 're-verification of the contract suite under a big-endian configuration'),
+ 'C16': ('proof', 'Footprint premise only: every library function under contract carries an assigns clause naming only memory reachable from its parameters and DFCC turns every store into an obligation against it; a symbol-table scan of every library TU proves all static-lifetime objects const. The inference from disjoint footprints to race freedom under every schedule is the textbook argument and is NOT mechanised; no schedule is explored.', '§5 C16',
+         NOTE_COMMON + 'Non-interference => data-race freedom is argued by hand.', 'DFCC frame obligations + static-lifetime symbol scan'),
+ 'C17': ('proof', 'Shared fields are single oracle rows; per pair (canonical view, other view) a client lemma proves read-identically, write-through-one/read-through-other in both directions for every shared field, with all four accessors replaced by their contracts.', '§5 C17',
+         NOTE_COMMON, 'client lemmas over generated contracts'),
 }
 NA = {
  'C15': 'alignment- and optimisation-level behaviour are outside CBMC\'s byte-addressed memory model and outside source-level contracts (DESIGN.md §5 C15)',
